@@ -11,7 +11,7 @@ WT=/tmp/confirm_${P}_$V
 BASE=$OUT/baseline_fail.txt
 run_suite() {  # $1 = dir ; prints sorted failing ids
   (cd $1 && PYTHONPATH=$1:$1/lint_rules /venv/bin/python -m pytest -q -rfE -p no:cacheprovider --timeout=900 --continue-on-collection-errors -n 6 2>&1 \
-     | grep -E '^(FAILED|ERROR) ' | sed -E 's/ - .*//' | sort -u)
+     | grep -E '^(FAILED|ERROR) [^ ]+::' | sed -E 's/ - .*//' | sort -u)
 }
 git -C /repo worktree add -q --detach $WT HEAD || exit 3
 if [ ! -s $BASE ]; then run_suite $WT > $BASE; fi
